@@ -206,6 +206,11 @@ func (s *Server) handleRPCReadSector(stream net.Conn, log *zap.Logger) error {
 
 	if err := req.Validate(s.hostKey.PublicKey()); err != nil {
 		return errorBadRequest("request invalid: %v", err)
+	} else if req.Offset%rhp4.LeafSize != 0 || req.Length%rhp4.LeafSize != 0 {
+		// the request validation only requires the end of the range to be
+		// segment aligned, but a sector can only be read (and proven) in
+		// whole segments: refuse before the account is charged
+		return errorBadRequest("read request must be segment aligned")
 	}
 	prices, token := req.Prices, req.Token
 	lap("validate request")
